@@ -28,7 +28,8 @@ int vf_main(void) {
     ev_src_t *s1 = m_mem_new(sizeof(ev_src_t), NULL); VF_ASSUME(s1 != NULL);
     s1->type = M_SRC_TYPE_TMR;
     VF_PICK(pb, 3);
-    s1->flags = (m_src_flags)((1u << pb) | (nondet_uint() & (M_SRC_ONESHOT | M_SRC_AUTOFREE | M_SRC_DUP)));
+    /* descriptor sources carry the default NORMAL bit AND the implicit HIGH bit: any word with HIGH set is high priority */
+    s1->flags = (m_src_flags)((1u << pb) | (nondet_uint() & (M_SRC_ONESHOT | M_SRC_AUTOFREE | M_SRC_DUP | M_SRC_PRIO_HIGH)));
     evt_priv_t *e1 = new_evt(s1); VF_ASSUME(e1 != NULL);
     uint64_t tok = nondet_u64();
     mod->tb.tokens = tok;
